@@ -135,7 +135,7 @@ def part_scrypt(chk, quick, rnd):
                   if r == 0 or p == 0 or r * p < 2 ** 31]
     for (n, r, p) in valid_grid:
         add("valid", n=n, r=r, p=p)
-    wd = VERIF / "out" / "work" / "C11_scrypt_in"
+    wd = tlc.WORK / "C11_scrypt_in"
     wd.mkdir(parents=True, exist_ok=True)
     (wd / "cases.json").write_text(json.dumps(cases))
     res = tlc.run("MC_Scrypt", "INIT Init\nNEXT Next\n", name="C11_scrypt", workers=16, env={"TRACE_FILE": str(wd / "cases.json")}, coverage=False, timeout=3000)
@@ -352,7 +352,7 @@ def part_saslprep(chk, quick, rnd):
         mapped = "".join(" " if stringprep.in_table_c12(c) else c for c in text if not stringprep.in_table_b1(c))
         norm = unicodedata.normalize("NFKC", mapped)
         tg[text] = (tuple(classify(c) for c in norm), norm)
-    wdt = VERIF / "out" / "work" / "C11_sasl_tricky_in"
+    wdt = tlc.WORK / "C11_sasl_tricky_in"
     wdt.mkdir(parents=True, exist_ok=True)
     tkeys = sorted({k for k, _ in tg.values() if k})
     (wdt / "groups.json").write_text(json.dumps([list(k) for k in tkeys]))
@@ -382,7 +382,7 @@ def part_saslprep(chk, quick, rnd):
         key = tuple(classify(c) for c in norm)
         groups.setdefault(key, []).append((cp, norm))
     keys = sorted(groups)
-    wd = VERIF / "out" / "work" / "C11_sasl_in"
+    wd = tlc.WORK / "C11_sasl_in"
     wd.mkdir(parents=True, exist_ok=True)
     (wd / "groups.json").write_text(json.dumps([list(k) for k in keys if k]))
     r = tlc.run_instance("MC_SaslPrep", dict(Mode="groups", MaxLen=0), name="C11_saslprep_cp", coverage=False, timeout=3000, env={"TRACE_FILE": str(wd / "groups.json")})
@@ -421,6 +421,8 @@ def run(chk):
     part_saslprep(chk, quick, rnd)
     from . import c11_des
     c11_des.run(chk, quick, rnd)
+    from . import x_hashnames
+    x_hashnames.run(chk, quick, rnd)
     chk.assumptions += ["hashlib's plain hash constructors, hashlib.pbkdf2_hmac, hashlib.scrypt (OpenSSL) and the stdlib hmac are trusted; Python's stringprep/unicodedata tables are trusted",
                         "Md4.tla is self-tested against the RFC 1320 vectors, Salsa.tla against the RFC 7914 vector and OpenSSL scrypt before it is used as an oracle"]
 
